@@ -2,9 +2,10 @@
 from checks.conc_common import *
 
 PROP = "C15"
-GENS = ["gen_protocol"]
-CONE = ["Server/Protocol.v", "Server/ConcModel.v", "Server/ConcProofs.v", "Props/C15.v", "Gen/Protocol.v"]
-THEOREMS = ["C15_insert_before_respond", "C15_responded_implies_stored", "C15_send_then_respond_refuted", "C15_registration_sent_before_ack", "C15_single_consumer"]
+GENS = ["gen_protocol", "gen_speech", "gen_dicgrammar", "gen_conj", "gen_score", "gen_kana"]
+CONE = ["Server/Protocol.v", "Server/ConcModel.v", "Server/ConcProofs.v", "Props/C15.v", "Gen/Protocol.v", "Server/ServerModel.v", "Server/SessionProofs.v"]
+THEOREMS = ["C15_insert_before_respond", "C15_responded_implies_stored", "C15_send_then_respond_refuted", "C15_registration_sent_before_ack", "C15_single_consumer",
+            "C15_conversion_stores_session", "C15_session_survives"]
 
 
 def pairs_client(srv_, n, word_input, results, idx):
